@@ -96,6 +96,9 @@ const c12GroupID = "g"
 // more witnesses of the same thing after 200; each unit is its own process).
 var c12FailedCases atomic.Int64
 
+// observations of the recovering instance (enum and seeded units)
+var c12RecCompared, c12RecServed, c12RecGroupsStarted, c12RecMulti atomic.Int64
+
 type c12Inst struct {
 	serverID string
 	g        *consumerGroup
@@ -118,6 +121,25 @@ type c12World struct {
 	maxShared, groupsCreated, groupsClosed, served, restoreDiffers, restoreChecked int
 	withRestore                                                                    bool
 	checkFrom                                                                      int // steps below this index were already checked on an identical prefix
+	// rec: a third instance with the coordinator's server id that applies the
+	// same operations in RECOVERY mode (newConsumerGroup(recovered=true), what
+	// the FSM does while it replays the Raft log after a restart) up to and
+	// including step recUntil, is then started with StartRecovered (what
+	// finishedRecovery does) and applies the rest live.  nil = not used.
+	rec                                   *c12Inst
+	recUntil                              int
+	recStarted                            bool
+	recCompared, recServed, recStartedGrp int
+	recMulti                              int // groups started with >= 2 streams that have >= 2 subscribers or a shared member
+	recPrev                               uint64
+	recPrevOK                             bool
+}
+
+// withRecovery adds the recovering instance; it leaves recovery mode after the
+// operation with index until (an index beyond the history: at finishRecovery).
+func (w *c12World) withRecovery(until int) {
+	w.rec = &c12Inst{serverID: "A"}
+	w.recUntil = until
 }
 
 var c12StreamNames, c12MemberNames = func() (a, b [32]string) {
@@ -150,11 +172,17 @@ func (w *c12World) partitions(stream string) int32 { return w.truth.Parts[stream
 
 func (w *c12World) fail(class, what string, step int) {
 	w.failed = true
-	w.rep.Violation("C12:group:"+class, what, map[string]interface{}{
+	wit := map[string]interface{}{
 		"initial_streams": w.initial, "sequence": c12SeqString(w.ops), "failed_after_step": step,
 		"instance_A": c12ViewOf(w.insts[0]).String(), "instance_B": c12ViewOf(w.insts[1]).String(),
 		"history_truth": w.truth.String(),
-	})
+	}
+	if w.rec != nil {
+		wit["recovering_instance"] = c12ViewOf(w.rec).String()
+		wit["recovery_mode_until_step"] = w.recUntil
+		wit["note"] = "the recovering instance has the coordinator's server id; it is created with newConsumerGroup(recovered=true), applies the same operations with the same epochs, and StartRecovered() is called after the step shown (Server.finishedRecovery)"
+	}
+	w.rep.Violation("C12:group:"+class, what, wit)
 }
 
 func c12ViewOf(in *c12Inst) *c12View {
@@ -171,6 +199,141 @@ func (w *c12World) close() {
 			in.g = nil
 		}
 	}
+	if w.rec != nil && w.rec.g != nil {
+		w.rec.g.Close()
+		w.rec.g = nil
+	}
+}
+
+// applyRec mirrors one operation of the history on the recovering instance.
+// streams: the join request's stream list.
+func (w *c12World) applyRec(op c12Op, step int, streams []string) {
+	in := w.rec
+	switch op.Kind {
+	case 'J':
+		id := c12MemberID(op.M)
+		if in.g == nil {
+			pg := &proto.ConsumerGroup{Id: c12GroupID, Coordinator: "A",
+				Members: []*proto.Consumer{{Id: id, Streams: append([]string(nil), streams...)}}}
+			in.g = newConsumerGroup(in.serverID, time.Hour, pg, !w.recStarted, c12Logger,
+				func(gid, cid string) error { return nil }, w.partitions)
+			w.recPrevOK = false
+		} else if err := in.g.AddMember(id, append([]string(nil), streams...), w.idx); err != nil {
+			w.fail("recovery:op-error", fmt.Sprintf("recovering instance: AddMember(%s,%v,epoch %d) of a valid history failed: %v", id, streams, w.idx, err), step)
+			return
+		}
+	case 'L', 'X':
+		// no liveness timer exists in recovery mode; the committed leave is applied
+		if in.g == nil {
+			w.fail("recovery:membership", fmt.Sprintf("recovering instance has no group at %s", op), step)
+			return
+		}
+		last, err := in.g.RemoveMember(c12MemberID(op.M), w.idx)
+		if err != nil {
+			w.fail("recovery:op-error", fmt.Sprintf("recovering instance: RemoveMember(%s,epoch %d) of a valid history failed: %v", c12MemberID(op.M), w.idx, err), step)
+			return
+		}
+		if last != (len(w.truth.Subs) == 0) {
+			w.fail("recovery:membership", fmt.Sprintf("recovering instance: RemoveMember(%s) reported lastMember=%v, history says %v", c12MemberID(op.M), last, len(w.truth.Subs) == 0), step)
+			return
+		}
+		if last {
+			in.g.Close()
+			in.g = nil
+		}
+	case 'D':
+		if in.g != nil {
+			if err := in.g.StreamDeleted(c12Stream(op.S), w.idx); err != nil {
+				w.fail("recovery:op-error", fmt.Sprintf("recovering instance: StreamDeleted(%s,epoch %d) of a valid history failed: %v", c12Stream(op.S), w.idx, err), step)
+				return
+			}
+		}
+	}
+	if !w.recStarted && step >= w.recUntil {
+		w.finishRecovery(step)
+	}
+}
+
+// finishRecovery is what Server.finishedRecovery does with every group.
+func (w *c12World) finishRecovery(step int) {
+	if w.rec == nil || w.recStarted {
+		return
+	}
+	w.recStarted = true
+	if g := w.rec.g; g != nil {
+		if !g.StartRecovered() {
+			w.fail("recovery:not-in-recovery", "StartRecovered() = false on a group that was created in recovery mode", step)
+			return
+		}
+		w.recStartedGrp++
+		if w.truthMultiStream() {
+			w.recMulti++
+		}
+	}
+}
+
+// truthMultiStream: some member is subscribed to >= 2 streams and shares one
+// of them with another member (the situation in which the assignment of a
+// stream depends on when it was last balanced).
+func (w *c12World) truthMultiStream() bool {
+	for id, ss := range w.truth.Subs {
+		if len(ss) < 2 {
+			continue
+		}
+		for s := range ss {
+			for id2, ss2 := range w.truth.Subs {
+				if id2 != id && ss2[s] {
+					return true
+				}
+			}
+		}
+	}
+	return false
+}
+
+// checkRec: once started, the recovered instance is an ordinary server that
+// applied the same operations: it must satisfy the oracle by itself, serve what
+// it holds, and agree with the live coordinator (assignments and epoch).
+func (w *c12World) checkRec(step int, live *c12View) {
+	in := w.rec
+	if in.g == nil {
+		if live != nil {
+			w.fail("recovery:membership", "recovered instance has no group but the live coordinator has one", step)
+		}
+		return
+	}
+	v := c12Snapshot(in.g)
+	extra := func() string { return fmt.Sprintf(" | recovered instance (recovery mode up to step %d): %s", w.recUntil, v) }
+	if finds, _ := c12Check(v, &w.truth); len(finds) > 0 {
+		w.fail("recovery:"+finds[0].Class, fmt.Sprintf("recovered instance after %s: %s%s", w.ops[step], finds[0].What, extra()), step)
+		return
+	}
+	for id, m := range v.Members {
+		got, ep, err := in.g.GetAssignments(id, v.Epoch)
+		if err != nil {
+			w.fail("recovery:not-served", fmt.Sprintf("recovered coordinator: GetAssignments(%s, current epoch %d) failed: %v%s", id, v.Epoch, err, extra()), step)
+			return
+		}
+		w.recServed++
+		norm := map[string][]int32{}
+		for s, ps := range got {
+			cp := append([]int32(nil), ps...)
+			sort.Slice(cp, func(a, b int) bool { return cp[a] < cp[b] })
+			norm[s] = cp
+		}
+		if ep != v.Epoch || !c12AssignSubset(norm, m.Assign) || !c12AssignSubset(m.Assign, norm) {
+			w.fail("recovery:served-differs", fmt.Sprintf("recovered coordinator: GetAssignments(%s) = %v epoch %d, group state has %v epoch %d", id, norm, ep, m.Assign, v.Epoch), step)
+			return
+		}
+	}
+	w.recCompared++
+	if live == nil || live.Epoch != v.Epoch {
+		w.fail("recovery:epochs-disagree", fmt.Sprintf("after %s the live coordinator holds %s%s", w.ops[step], live, extra()), step)
+		return
+	}
+	if !c12SameAssignments(live, v) {
+		w.fail("recovery:replayed-server-disagrees", fmt.Sprintf("after %s the server that applied the operations live and the server that applied the same operations in recovery mode and was then started hand out different assignments for group epoch %d: live: %s%s", w.ops[step], v.Epoch, live, extra()), step)
+	}
 }
 
 // apply executes one operation of a valid history on both instances.
@@ -183,21 +346,10 @@ func (w *c12World) apply(op c12Op) {
 		w.truth.Parts[c12Stream(op.S)] = op.P
 	case 'J':
 		id := c12MemberID(op.M)
-		var streams []string
+		streams := c12JoinStreams(op)
 		set := map[string]bool{}
-		for i := 0; i < 32; i++ {
-			if op.Mask&(1<<uint(i)) != 0 {
-				streams = append(streams, c12Stream(i))
-				set[c12Stream(i)] = true
-			}
-		}
-		if op.Dup {
-			streams = append(streams, streams[0])
-		}
-		// The request order is not sorted on purpose (rotate by the member index).
-		if n := len(streams); n > 1 {
-			k := op.M % n
-			streams = append(append([]string(nil), streams[k:]...), streams[:k]...)
+		for _, s := range streams {
+			set[s] = true
 		}
 		w.truth.Subs[id] = set
 		for _, in := range w.insts {
@@ -275,6 +427,16 @@ func (w *c12World) apply(op c12Op) {
 			}
 		}
 	}
+	if w.rec != nil && !w.failed {
+		var streams []string
+		if op.Kind == 'J' {
+			streams = c12JoinStreams(op)
+		}
+		w.applyRec(op, step, streams)
+		if w.failed {
+			return
+		}
+	}
 	if sh := w.truthShared(); sh > w.maxShared {
 		w.maxShared = sh
 	}
@@ -290,6 +452,25 @@ func (w *c12World) apply(op c12Op) {
 		return
 	}
 	w.check(step)
+}
+
+// c12JoinStreams: the stream list of a join request.
+func c12JoinStreams(op c12Op) []string {
+	var streams []string
+	for i := 0; i < 32; i++ {
+		if op.Mask&(1<<uint(i)) != 0 {
+			streams = append(streams, c12Stream(i))
+		}
+	}
+	if op.Dup {
+		streams = append(streams, streams[0])
+	}
+	// The request order is not sorted on purpose (rotate by the member index).
+	if n := len(streams); n > 1 {
+		k := op.M % n
+		streams = append(append([]string(nil), streams[k:]...), streams[:k]...)
+	}
+	return streams
 }
 
 // truthShared: the largest number of members subscribed to one stream.
@@ -375,6 +556,12 @@ func (w *c12World) check(step int) {
 		w.fail("nondeterministic", fmt.Sprintf("after %s two instances that applied the same operations differ: A: %s | B: %s", w.ops[step], views[0], views[1]), step)
 		return
 	}
+	if w.rec != nil && w.recStarted {
+		w.checkRec(step, views[0])
+		if w.failed {
+			return
+		}
+	}
 	if w.withRestore && views[0] != nil {
 		w.observeRestore(views[0])
 	}
@@ -401,6 +588,21 @@ func (w *c12World) observeRestore(live *c12View) {
 	if !c12SameAssignments(live, v) {
 		w.restoreDiffers++
 	}
+}
+
+// recObserved adds this world's recovery observations to the unit counters.
+func (w *c12World) recObserved() {
+	c12RecCompared.Add(int64(w.recCompared))
+	c12RecServed.Add(int64(w.recServed))
+	c12RecGroupsStarted.Add(int64(w.recStartedGrp))
+	c12RecMulti.Add(int64(w.recMulti))
+}
+
+func c12RecCounts(rep *kit.Report) {
+	rep.Count("recovered_instance_groups_started(StartRecovered)", c12RecGroupsStarted.Load())
+	rep.Count("recovered_instance_started_with_members_sharing_>=2_streams", c12RecMulti.Load())
+	rep.Count("recovered_instance_states_compared_with_live", c12RecCompared.Load())
+	rep.Count("recovered_instance_getassignments_compared", c12RecServed.Load())
 }
 
 func (w *c12World) finish(sig string) {
@@ -464,6 +666,11 @@ func (m c12Model) next(op c12Op) c12Model {
 func c12RunSequence(rep *kit.Report, parts []int32, ops []c12Op, checkFrom int) *c12World {
 	w := newC12World(rep, parts)
 	w.checkFrom = checkFrom
+	if len(ops) > 0 {
+		// third instance: the whole sequence is replayed in recovery mode and the
+		// group is started after the last operation
+		w.withRecovery(len(ops) - 1)
+	}
 	for _, op := range ops {
 		w.apply(op)
 		if w.failed {
@@ -502,6 +709,7 @@ func TestVerifC12Enum(t *testing.T) {
 	rep.Count("expiry_callbacks", expired.Load())
 	rep.Count("groups_created", created.Load())
 	rep.Count("groups_closed_with_last_member", closed.Load())
+	c12RecCounts(rep)
 	rep.SetInfo("passes", passes)
 }
 
@@ -571,6 +779,7 @@ func c12EnumPassRun(rep *kit.Report, nMembers, nStreams, maxLen int, configs [][
 					c12FailedCases.Add(1)
 				}
 				checked.Add(int64(len(w.ops) - common))
+				w.recObserved()
 				total.Add(1)
 				steps.Add(int64(len(w.ops)))
 				served.Add(int64(w.served))
@@ -663,6 +872,13 @@ func TestVerifC12Seeded(t *testing.T) {
 		var m c12Model
 		m.exist = 1<<uint(nStreams) - 1
 		length := rng.Range(20, 80)
+		// recovering instance: leaves recovery mode after a seeded step (every
+		// third history: only at the very end, i.e. the whole history is replayed)
+		recUntil := length // beyond the history: started by finishRecovery below
+		if i%3 != 0 {
+			recUntil = rng.Intn(length)
+		}
+		w.withRecovery(recUntil)
 		dels, leaves := 0, 0
 		for k := 0; k < length && !w.failed; k++ {
 			var op c12Op
@@ -727,9 +943,17 @@ func TestVerifC12Seeded(t *testing.T) {
 			m = m.next(op)
 			w.apply(op)
 		}
+		if !w.failed && !w.recStarted && len(w.ops) > 0 {
+			// the whole history was replayed in recovery mode: start and compare now
+			w.finishRecovery(len(w.ops) - 1)
+			if !w.failed {
+				w.checkRec(len(w.ops)-1, c12ViewOf(w.insts[0]))
+			}
+		}
 		if w.failed {
 			c12FailedCases.Add(1)
 		}
+		w.recObserved()
 		ops.Add(int64(len(w.ops)))
 		restoreChecked.Add(int64(w.restoreChecked))
 		restoreDiffers.Add(int64(w.restoreDiffers))
@@ -748,6 +972,7 @@ func TestVerifC12Seeded(t *testing.T) {
 	rep.Count("operations_checked", ops.Load())
 	rep.Count("getassignments_compared", served.Load())
 	rep.Count("expiry_callbacks", expired.Load())
+	c12RecCounts(rep)
 	rep.Count("snapshot_rebuilds_checked", restoreChecked.Load())
 	rep.Count("snapshot_rebuild_assignment_differs_from_live(observation)", restoreDiffers.Load())
 }
